@@ -1,5 +1,760 @@
 package main
 
-func cmdCheck(args []string) int    { return 2 }
-func cmdReplay(args []string) int   { return 2 }
-func cmdSelftest(args []string) int { return 2 }
+import (
+	"encoding/json"
+	"flag"
+	"fmt"
+	"os"
+	"os/exec"
+	"path/filepath"
+	"regexp"
+	"runtime"
+	"sort"
+	"strconv"
+	"strings"
+	"time"
+)
+
+const verifRoot = "/verif"
+
+type jobSpec struct {
+	Pkg         string   `json:"pkg"`
+	Harness     string   `json:"harness"` // directory relative to /verif
+	Quick       []string `json:"quick"`
+	Thorough    []string `json:"thorough"`
+	ExpectReach []string `json:"expect_reach,omitempty"`
+	// abort reasons (regexp) that are part of the harness's stated model, e.g. "would block"
+	TolerateAbort []string `json:"tolerate_abort,omitempty"`
+	NoNative      bool     `json:"no_native_replay,omitempty"` // harness uses stubs of code outside the repo
+	TimeoutMs     int      `json:"timeout_ms,omitempty"`
+}
+
+type checkSpec struct {
+	Title       string    `json:"title"`
+	Jobs        []jobSpec `json:"jobs"`
+	Assumptions []string  `json:"assumptions"`
+	Bounds      map[string]string `json:"bounds"`
+	Rule        string    `json:"rule,omitempty"`
+}
+
+type knownFinding struct {
+	Property string `json:"property"`
+	ID       string `json:"id"`
+	Status   string `json:"status"` // "known" | "fixed"
+	Harness  string `json:"harness,omitempty"` // regexp on harness function name
+	Tag      string `json:"tag"`               // regexp on assertion tag
+	What     string `json:"what"`
+	Commit   string `json:"commit,omitempty"`
+}
+
+type cexFile struct {
+	Property   string            `json:"property"`
+	Pkg        string            `json:"pkg"`
+	HarnessDir string            `json:"harness_dir"`
+	Harness    string            `json:"harness"`
+	Tag        string            `json:"tag"`
+	Msg        string            `json:"msg,omitempty"`
+	Model      map[string]uint64 `json:"model"`
+	NoNative   bool              `json:"no_native_replay,omitempty"`
+	Trace      []decision        `json:"trace,omitempty"`
+}
+
+func loadJSON(path string, v interface{}) error {
+	b, err := os.ReadFile(path)
+	if err != nil {
+		return err
+	}
+	return json.Unmarshal(b, v)
+}
+
+func cmdCheck(args []string) int {
+	fs := flag.NewFlagSet("check", flag.ExitOnError)
+	tier := fs.String("tier", "", "quick | thorough")
+	workers := fs.Int("workers", 0, "worker processes (default: all cores)")
+	budget := fs.Int("budget-s", 0, "wall budget per harness in seconds (0: tier default)")
+	only := fs.String("only", "", "restrict to harness functions matching this regexp")
+	if len(args) < 1 {
+		fmt.Fprintln(os.Stderr, "usage: gosmt check <property> [--tier quick|thorough]")
+		return 2
+	}
+	id := args[0]
+	fs.Parse(args[1:])
+	if *tier == "" {
+		*tier = os.Getenv("VERIF_TIER")
+	}
+	if *tier == "" {
+		*tier = "quick"
+	}
+	seed, _ := strconv.Atoi(os.Getenv("VERIF_SEED"))
+	if *workers <= 0 {
+		*workers = runtime.NumCPU()
+	}
+	var reg map[string]checkSpec
+	if err := loadJSON(filepath.Join(verifRoot, "checks.json"), &reg); err != nil {
+		fmt.Fprintln(os.Stderr, "cannot read checks.json:", err)
+		return 2
+	}
+	spec, ok := reg[id]
+	if !ok {
+		fmt.Fprintln(os.Stderr, "unknown property", id)
+		return 2
+	}
+	var known []knownFinding
+	loadJSON(filepath.Join(verifRoot, "known_findings.json"), &known)
+
+	start := time.Now()
+	outDir := filepath.Join(verifRoot, "out", id)
+	os.RemoveAll(outDir)
+	os.MkdirAll(outDir, 0o755)
+	os.MkdirAll(filepath.Join(verifRoot, "evidence"), 0o755)
+
+	var results []*harnessResult
+	var problems []string
+	var violLines, knownLines []string
+	validated := 0
+	var samples []interface{}
+	var onlyRe *regexp.Regexp
+	if *only != "" {
+		onlyRe = regexp.MustCompile(*only)
+	}
+
+	for _, job := range spec.Jobs {
+		funcs := job.Quick
+		if *tier == "thorough" && len(job.Thorough) > 0 {
+			funcs = job.Thorough
+		}
+		tmo := job.TimeoutMs
+		if tmo == 0 {
+			tmo = 60000
+			if *tier == "thorough" {
+				tmo = 300000
+			}
+		}
+		hdir := filepath.Join(verifRoot, job.Harness)
+		cfg := runConfig{Pkg: job.Pkg, HarnessDir: hdir, TimeoutMs: tmo, Seed: seed, Solver: "z3"}
+		b := time.Duration(*budget) * time.Second
+		for _, fn := range funcs {
+			if onlyRe != nil && !onlyRe.MatchString(fn) {
+				continue
+			}
+			res, err := parallelExplore(cfg, fn, *workers, b)
+			if err != nil {
+				problems = append(problems, fmt.Sprintf("%s: %v", fn, err))
+				continue
+			}
+			res.ExpectReach = job.ExpectReach
+			results = append(results, res)
+			// --- inconclusive conditions
+			if len(res.EngineErrors) > 0 {
+				problems = append(problems, fmt.Sprintf("%s: engine errors: %s", fn, firstLine(res.EngineErrors[0])))
+			}
+			if res.Truncated {
+				problems = append(problems, fmt.Sprintf("%s: exploration truncated by budget", fn))
+			}
+			if res.Unknowns > 0 {
+				for tag, o := range res.Obligations {
+					if o.Unknown > 0 {
+						problems = append(problems, fmt.Sprintf("%s: %d obligations %q came back unknown/timeout", fn, o.Unknown, tag))
+					}
+				}
+			}
+			for reason, n := range res.PathsAborted {
+				if reason == "infeasible" || reason == "after violated assertion" {
+					continue
+				}
+				tolerated := false
+				for _, pat := range job.TolerateAbort {
+					if ok, _ := regexp.MatchString(pat, reason); ok {
+						tolerated = true
+					}
+				}
+				if !tolerated {
+					problems = append(problems, fmt.Sprintf("%s: %d paths ended outside the model: %s", fn, n, reason))
+				}
+			}
+			for _, tag := range job.ExpectReach {
+				if _, ok := res.Reach[tag]; !ok {
+					problems = append(problems, fmt.Sprintf("%s: reachability witness %q not reached (vacuity guard)", fn, tag))
+				}
+			}
+			nOblig := 0
+			for _, o := range res.Obligations {
+				nOblig += o.Reached
+			}
+			if nOblig == 0 {
+				problems = append(problems, fmt.Sprintf("%s: no assertion site was reached (vacuity guard)", fn))
+			}
+			// --- translator validation: replay reachability witnesses natively
+			if !job.NoNative {
+				maxW := 2
+				if *tier == "thorough" {
+					maxW = 6
+				}
+				nW := 0
+				for _, tag := range sortedKeys(res.Reach) {
+					if nW >= maxW {
+						break
+					}
+					nW++
+					cf := cexFile{Property: id, Pkg: job.Pkg, HarnessDir: hdir, Harness: fn, Tag: "reach:" + tag, Model: res.Reach[tag]}
+					rr := nativeReplay(cf)
+					if rr.err != "" {
+						problems = append(problems, fmt.Sprintf("%s: native replay of witness %q failed to run: %s", fn, tag, rr.err))
+						continue
+					}
+					if !rr.reached[tag] || rr.diverged {
+						problems = append(problems, fmt.Sprintf("ENGINE-MISMATCH %s: witness %q does not reach the tag natively (diverged=%v)", fn, tag, rr.diverged))
+						continue
+					}
+					bad := false
+					for vt := range rr.violated {
+						if o := res.Obligations[vt]; o == nil || o.Violated == 0 {
+							problems = append(problems, fmt.Sprintf("ENGINE-MISMATCH %s: native run of witness %q violates %q, engine found no such violation", fn, tag, vt))
+							bad = true
+						}
+					}
+					if !bad {
+						validated++
+					}
+				}
+			}
+			for _, tag := range sortedKeys(res.Reach) {
+				if len(samples) < 12 {
+					samples = append(samples, map[string]interface{}{"harness": fn, "witness_for": tag, "inputs": trimModel(res.Reach[tag])})
+				}
+			}
+			// --- violations: replay, classify
+			for _, v := range res.Violations {
+				cf := cexFile{Property: id, Pkg: job.Pkg, HarnessDir: hdir, Harness: fn, Tag: v.Tag, Msg: v.Msg, Model: v.Model, NoNative: job.NoNative, Trace: v.Trace}
+				path := filepath.Join(outDir, sanitize(fn+"."+v.Tag)+".cex.json")
+				b, _ := json.MarshalIndent(cf, "", " ")
+				os.WriteFile(path, b, 0o644)
+				reproduced := false
+				how := ""
+				if job.NoNative {
+					ok, msg := engineReplay(cf)
+					reproduced, how = ok, "engine-concrete: "+msg
+				} else {
+					rr := nativeReplay(cf)
+					if rr.err != "" {
+						problems = append(problems, fmt.Sprintf("%s: native replay failed to run: %s", fn, rr.err))
+						continue
+					}
+					reproduced = rr.violated[v.Tag] || (v.Tag == "no-panic" && rr.panicked)
+					how = "native"
+				}
+				if !reproduced {
+					problems = append(problems, fmt.Sprintf("ENGINE-MISMATCH %s: counterexample for %q does not reproduce (%s) replay=%s", fn, v.Tag, how, path))
+					continue
+				}
+				if kf := matchKnown(known, id, fn, v.Tag); kf != nil {
+					knownLines = append(knownLines, fmt.Sprintf("KNOWN-FINDING: property=%s %s [%s] (%s %s)", id, kf.What, kf.ID, fn, v.Tag))
+				} else {
+					violLines = append(violLines, fmt.Sprintf("VIOLATION property=%s replay=%s", id, path))
+					fmt.Printf("  harness=%s tag=%s %s inputs=%s\n", fn, v.Tag, v.Msg, compactModel(v.Model))
+				}
+				samples = append(samples, map[string]interface{}{"harness": fn, "counterexample_for": v.Tag, "inputs": trimModel(v.Model)})
+			}
+		}
+	}
+
+	// ---- evidence
+	ev := buildEvidence(id, *tier, seed, spec, results, validated, samples, problems, len(violLines), knownLines, time.Since(start))
+	b, _ := json.MarshalIndent(ev, "", " ")
+	os.WriteFile(filepath.Join(verifRoot, "evidence", id+".json"), b, 0o644)
+
+	for _, l := range knownLines {
+		fmt.Println(l)
+	}
+	for _, l := range violLines {
+		fmt.Println(l)
+	}
+	summary(id, results, problems)
+	if len(violLines) > 0 {
+		return 1
+	}
+	if len(problems) > 0 {
+		for _, p := range problems {
+			fmt.Printf("INCONCLUSIVE property=%s %s\n", id, p)
+		}
+		return 2
+	}
+	fmt.Printf("OK property=%s tier=%s harnesses=%d wall=%.1fs\n", id, *tier, len(results), time.Since(start).Seconds())
+	return 0
+}
+
+func summary(id string, results []*harnessResult, problems []string) {
+	for _, r := range results {
+		disc, triv, viol := 0, 0, 0
+		for _, o := range r.Obligations {
+			disc += o.Discharged
+			triv += o.Trivial
+			viol += o.Violated
+		}
+		fmt.Printf("  %s: paths=%d obligations discharged=%d folded=%d violated=%d queries=%d solver=%.1fs wall=%.1fs\n",
+			r.Harness, r.Paths, disc, triv, viol, r.Queries, r.SolverTimeS, r.WallS)
+	}
+}
+
+func sanitize(s string) string {
+	return regexp.MustCompile(`[^A-Za-z0-9_.-]+`).ReplaceAllString(s, "_")
+}
+
+func trimModel(m map[string]uint64) map[string]uint64 {
+	out := map[string]uint64{}
+	for k, v := range m {
+		if strings.HasPrefix(k, "md5#") || strings.HasPrefix(k, "sha256#") {
+			continue
+		}
+		out[k] = v
+	}
+	return out
+}
+
+func compactModel(m map[string]uint64) string {
+	ks := sortedKeys(trimModel(m))
+	var sb strings.Builder
+	for i, k := range ks {
+		if i >= 40 {
+			sb.WriteString(" ...")
+			break
+		}
+		fmt.Fprintf(&sb, " %s=%d", k, m[k])
+	}
+	return strings.TrimSpace(sb.String())
+}
+
+func matchKnown(known []knownFinding, id, harness, tag string) *knownFinding {
+	for i := range known {
+		k := &known[i]
+		if k.Property != id || k.Status != "known" {
+			continue
+		}
+		if k.Harness != "" {
+			if ok, _ := regexp.MatchString("^(?:"+k.Harness+")$", harness); !ok {
+				continue
+			}
+		}
+		if ok, _ := regexp.MatchString("^(?:"+k.Tag+")$", tag); ok {
+			return k
+		}
+	}
+	return nil
+}
+
+func buildEvidence(id, tier string, seed int, spec checkSpec, results []*harnessResult, validated int, samples []interface{},
+	problems []string, nViol int, knownLines []string, wall time.Duration) map[string]interface{} {
+	states, transitions, queries := 0, int64(0), 0
+	solverS := 0.0
+	oblig, discharged, folded, violated := 0, 0, 0, 0
+	distinct := 0
+	funcs := map[string]bool{}
+	natives := map[string]bool{}
+	stubs := map[string]bool{}
+	perHarness := []interface{}{}
+	for _, r := range results {
+		states += r.Paths
+		transitions += r.Steps
+		queries += r.Queries
+		solverS += r.SolverTimeS
+		ob := map[string]interface{}{}
+		for tag, o := range r.Obligations {
+			oblig += o.Reached
+			discharged += o.Discharged
+			folded += o.Trivial
+			violated += o.Violated
+			if o.Discharged+o.Violated > 0 {
+				distinct++
+			}
+			ob[tag] = o
+		}
+		for f := range r.Funcs {
+			funcs[f] = true
+		}
+		for f := range r.Natives {
+			natives[f] = true
+		}
+		for _, s := range r.Stubs {
+			stubs[s] = true
+		}
+		perHarness = append(perHarness, map[string]interface{}{
+			"harness": r.Harness, "paths": r.Paths, "paths_completed": r.PathsOK, "paths_aborted": r.PathsAborted,
+			"paths_panicked": r.PathsPanicked, "obligations": ob, "solver_queries": r.Queries, "solver_time_s": r.SolverTimeS,
+			"wall_s": r.WallS, "reach_witnesses": sortedKeys(r.Reach), "reach_counts": r.ReachCount,
+			"max_decisions_on_a_path": r.MaxDecisions,
+		})
+	}
+	if len(samples) == 0 {
+		samples = append(samples, "no witness produced")
+	}
+	z3v, _ := exec.Command("z3", "--version").Output()
+	cov := map[string]interface{}{
+		"states":                        states,
+		"transitions":                   transitions,
+		"traces_validated_against_impl": validated,
+		"samples":                       samples,
+		"evaluations":                   queries,
+		"distinct_nontrivial":           distinct,
+		"rule": "states = feasible paths of the harness functions explored by symbolic execution of the SSA of /repo's current tree; " +
+			"transitions = SSA instructions interpreted; evaluations = SMT queries sent to z3; distinct_nontrivial = assertion sites (tags) " +
+			"with at least one obligation that was not constant-folded and went to the solver; traces_validated_against_impl = reachability " +
+			"witness models replayed against the natively compiled package with identical outcome",
+		"obligations":             oblig,
+		"discharged_by_solver":    discharged,
+		"discharged_by_folding":   folded,
+		"violated":                violated,
+		"functions_encoded":       sortedSet(funcs),
+		"native_models":           sortedSet(natives),
+		"stubs":                   sortedSet(stubs),
+		"bounds":                  spec.Bounds,
+		"solver_time_s":           solverS,
+		"solver_versions":         []string{strings.TrimSpace(string(z3v))},
+		"per_harness":             perHarness,
+		"known_findings_seen":     knownLines,
+		"inconclusive":            problems,
+		"exhaustive_within_bound": len(problems) == 0,
+		"explanation": "bounded symbolic execution: every feasible path of each harness (inputs symbolic within the stated bounds) is " +
+			"enumerated by solver-checked branching; each assertion is discharged by an unsat answer for its negation under the path condition",
+	}
+	return map[string]interface{}{
+		"property_id": id,
+		"tier":        tier,
+		"seed":        seed,
+		"level":       "model_checking",
+		"coverage":    cov,
+		"assumptions": spec.Assumptions,
+		"wall_s":      wall.Seconds(),
+		"violations":  nViol,
+	}
+}
+
+func sortedSet(m map[string]bool) []string {
+	out := make([]string, 0, len(m))
+	for k := range m {
+		out = append(out, k)
+	}
+	sort.Strings(out)
+	return out
+}
+
+// ---------------------------------------------------------------- native replay
+
+type replayResult struct {
+	violated map[string]bool
+	reached  map[string]bool
+	panicked bool
+	diverged bool
+	output   string
+	err      string
+}
+
+const nativeRuntime = `//go:build verif
+
+package %s
+
+import (
+	"encoding/json"
+	"fmt"
+	"os"
+)
+
+var vModel map[string]uint64
+
+type vStop struct{}
+
+func vGet(name string) uint64 {
+	if vModel == nil {
+		vModel = map[string]uint64{}
+		b, err := os.ReadFile(os.Getenv("GOSMT_MODEL"))
+		if err == nil {
+			json.Unmarshal(b, &vModel)
+		}
+	}
+	return vModel[name]
+}
+func vDiverge(why string) { fmt.Println("REPLAY-DIVERGED " + why); panic(vStop{}) }
+func vBool(name string) bool   { return vGet(name) != 0 }
+func vU8(name string) uint8     { return uint8(vGet(name)) }
+func vU16(name string) uint16   { return uint16(vGet(name)) }
+func vU32(name string) uint32   { return uint32(vGet(name)) }
+func vU64(name string) uint64   { return vGet(name) }
+func vUint(name string) uint    { return uint(vGet(name)) }
+func vI8(name string) int8      { return int8(vGet(name)) }
+func vI16(name string) int16    { return int16(vGet(name)) }
+func vI32(name string) int32    { return int32(vGet(name)) }
+func vI64(name string) int64    { return int64(vGet(name)) }
+func vInt(name string) int      { return int(vGet(name)) }
+func vRange(name string, lo, hi int) int {
+	if lo == hi {
+		return lo
+	}
+	v := int(int64(vGet(name)))
+	if v < lo || v > hi {
+		vDiverge("range " + name)
+	}
+	return v
+}
+func vConcrete(x int) int { return x }
+func vBytes(name string, n int) []byte {
+	b := make([]byte, n)
+	for i := range b {
+		b[i] = uint8(vGet(fmt.Sprintf("%%s[%%d]", name, i)))
+	}
+	return b
+}
+func vString(name string, n int) string { return string(vBytes(name, n)) }
+func vName(base string, idx ...int) string {
+	for _, i := range idx {
+		base += fmt.Sprintf("[%%d]", i)
+	}
+	return base
+}
+func vAssume(c bool) {
+	if !c {
+		vDiverge("assume")
+	}
+}
+func vAssert(c bool, tag string) {
+	if !c {
+		fmt.Println("REPLAY-VIOLATION tag=" + tag)
+	}
+}
+func vFail(tag string)  { fmt.Println("REPLAY-VIOLATION tag=" + tag); panic(vStop{}) }
+func vReach(tag string) { fmt.Println("REPLAY-REACH tag=" + tag) }
+func vAnd(a, b bool) bool     { return a && b }
+func vOr(a, b bool) bool      { return a || b }
+func vNot(a bool) bool        { return !a }
+func vImplies(a, b bool) bool { return !a || b }
+func vIteInt(c bool, a, b int) int          { if c { return a }; return b }
+func vIteU8(c bool, a, b uint8) uint8       { if c { return a }; return b }
+func vIteU16(c bool, a, b uint16) uint16    { if c { return a }; return b }
+func vIteU32(c bool, a, b uint32) uint32    { if c { return a }; return b }
+func vIteU64(c bool, a, b uint64) uint64    { if c { return a }; return b }
+func vIteI64(c bool, a, b int64) int64      { if c { return a }; return b }
+func vIteI32(c bool, a, b int32) int32      { if c { return a }; return b }
+func vGoCount(sub string) int    { fmt.Println("REPLAY-UNSUPPORTED vGoCount"); panic(vStop{}) }
+func vRunSpawned(sub string) int { fmt.Println("REPLAY-UNSUPPORTED vRunSpawned"); panic(vStop{}) }
+var vLastPanic string
+func vCatch(f func()) (panicked bool) {
+	defer func() {
+		if r := recover(); r != nil {
+			if _, ok := r.(vStop); ok {
+				panic(r)
+			}
+			vLastPanic = fmt.Sprint(r)
+			panicked = true
+		}
+	}()
+	f()
+	return false
+}
+func vPanicMsg() string { return vLastPanic }
+func vSameSlice(a, b []byte) bool {
+	if len(a) != len(b) || cap(a) != cap(b) {
+		return false
+	}
+	if cap(a) == 0 {
+		return (a == nil) == (b == nil)
+	}
+	return &a[:1][0] == &b[:1][0]
+}
+func vEventCount(sub string) int { fmt.Println("REPLAY-UNSUPPORTED vEventCount"); panic(vStop{}) }
+func vPrint(x any)               { fmt.Println("vPrint:", x) }
+`
+
+const nativeTest = `//go:build verif
+
+package %s
+
+import (
+	"fmt"
+	"testing"
+)
+
+func TestVerifReplay(t *testing.T) {
+	defer func() {
+		if r := recover(); r != nil {
+			if _, ok := r.(vStop); ok {
+				return
+			}
+			fmt.Println("REPLAY-PANIC", r)
+		}
+	}()
+	%s()
+	fmt.Println("REPLAY-END")
+}
+`
+
+func nativeReplay(cf cexFile) replayResult {
+	rr := replayResult{violated: map[string]bool{}, reached: map[string]bool{}}
+	repo := repoDir()
+	tmp, err := os.MkdirTemp("", "gosmt-replay-")
+	if err != nil {
+		rr.err = err.Error()
+		return rr
+	}
+	defer os.RemoveAll(tmp)
+	for _, f := range []string{"go.mod", "go.sum"} {
+		b, _ := os.ReadFile(filepath.Join(repo, f))
+		os.WriteFile(filepath.Join(tmp, map[string]string{"go.mod": "x.mod", "go.sum": "x.sum"}[f]), b, 0o644)
+	}
+	pkgDir := filepath.Join(repo, cf.Pkg)
+	files, _ := filepath.Glob(filepath.Join(cf.HarnessDir, "*.go"))
+	repl := map[string]string{}
+	pkgName := ""
+	for _, f := range files {
+		b, _ := os.ReadFile(f)
+		if m := regexp.MustCompile(`(?m)^package\s+(\w+)`).FindSubmatch(b); m != nil {
+			pkgName = string(m[1])
+		}
+		repl[filepath.Join(pkgDir, "zz_verif_"+filepath.Base(f))] = f
+	}
+	rt := filepath.Join(tmp, "rt.go")
+	os.WriteFile(rt, []byte(fmt.Sprintf(nativeRuntime, pkgName)), 0o644)
+	repl[filepath.Join(pkgDir, "zz_verif_intrinsics.go")] = rt
+	tf := filepath.Join(tmp, "replay_test.go")
+	os.WriteFile(tf, []byte(fmt.Sprintf(nativeTest, pkgName, cf.Harness)), 0o644)
+	repl[filepath.Join(pkgDir, "zz_verif_replay_test.go")] = tf
+	ov, _ := json.Marshal(map[string]interface{}{"Replace": repl})
+	ovf := filepath.Join(tmp, "overlay.json")
+	os.WriteFile(ovf, ov, 0o644)
+	mf := filepath.Join(tmp, "model.json")
+	mb, _ := json.Marshal(cf.Model)
+	os.WriteFile(mf, mb, 0o644)
+	cmd := exec.Command("go", "test", "-tags=verif", "-overlay="+ovf, "-modfile="+filepath.Join(tmp, "x.mod"),
+		"-run", "^TestVerifReplay$", "-count=1", "-v", "-vet=off", "-timeout", "120s", cf.Pkg)
+	cmd.Dir = repo
+	cmd.Env = append(os.Environ(), "GOFLAGS=-mod=mod", "GOPROXY=off", "GOSUMDB=off", "GOTOOLCHAIN=local", "GOSMT_MODEL="+mf)
+	out, _ := cmd.CombinedOutput()
+	rr.output = string(out)
+	if !strings.Contains(rr.output, "REPLAY-") {
+		rr.err = "no replay output: " + lastLines(rr.output, 12)
+		return rr
+	}
+	for _, l := range strings.Split(rr.output, "\n") {
+		l = strings.TrimSpace(l)
+		switch {
+		case strings.HasPrefix(l, "REPLAY-VIOLATION tag="):
+			rr.violated[strings.TrimPrefix(l, "REPLAY-VIOLATION tag=")] = true
+		case strings.HasPrefix(l, "REPLAY-REACH tag="):
+			rr.reached[strings.TrimPrefix(l, "REPLAY-REACH tag=")] = true
+		case strings.HasPrefix(l, "REPLAY-PANIC"):
+			rr.panicked = true
+		case strings.HasPrefix(l, "REPLAY-DIVERGED"):
+			rr.diverged = true
+		case strings.HasPrefix(l, "REPLAY-UNSUPPORTED"):
+			rr.err = l
+		}
+	}
+	return rr
+}
+
+func lastLines(s string, n int) string {
+	ls := strings.Split(strings.TrimSpace(s), "\n")
+	if len(ls) > n {
+		ls = ls[len(ls)-n:]
+	}
+	return strings.Join(ls, " | ")
+}
+
+// engineReplay re-executes the harness inside the engine with every input pinned to the
+// model's value (used where native replay is impossible because code outside the repo is stubbed).
+func engineReplay(cf cexFile) (bool, string) {
+	self, _ := os.Executable()
+	mf, err := os.CreateTemp("", "gosmt-model-*.json")
+	if err != nil {
+		return false, err.Error()
+	}
+	defer os.Remove(mf.Name())
+	b, _ := json.Marshal(cf)
+	mf.Write(b)
+	mf.Close()
+	out, err := exec.Command(self, "pinned", mf.Name()).CombinedOutput()
+	s := string(out)
+	if strings.Contains(s, "PINNED-VIOLATION tag="+cf.Tag) {
+		return true, "assertion fails under the pinned inputs"
+	}
+	return false, lastLines(s, 5)
+}
+
+// cmdPinned runs one harness with inputs pinned to a model (concrete execution inside the engine).
+func cmdPinned(args []string) int {
+	var cf cexFile
+	if err := loadJSON(args[0], &cf); err != nil {
+		fmt.Println("cannot read", args[0], err)
+		return 2
+	}
+	pinnedModel = cf.Model
+	lh, err := loadHarness(cf.Pkg, cf.HarnessDir)
+	if lh != nil {
+		defer os.RemoveAll(lh.scratch)
+	}
+	if err != nil {
+		fmt.Println(err)
+		return 2
+	}
+	i := newInterpreter(lh)
+	solver = NewSolver("z3", 60000, 0)
+	defer solver.Close()
+	i.ensureInit(lh.pkg)
+	fn := lh.pkg.Func(cf.Harness)
+	res := exploreHarness(i, cf.Harness, fn, 0)
+	for _, v := range res.Violations {
+		fmt.Println("PINNED-VIOLATION tag=" + v.Tag)
+	}
+	fmt.Printf("PINNED-END paths=%d\n", res.Paths)
+	return 0
+}
+
+var pinnedModel map[string]uint64
+
+func cmdReplay(args []string) int {
+	if len(args) < 1 {
+		fmt.Fprintln(os.Stderr, "usage: gosmt replay <cex.json>")
+		return 2
+	}
+	var cf cexFile
+	if err := loadJSON(args[0], &cf); err != nil {
+		fmt.Fprintln(os.Stderr, err)
+		return 2
+	}
+	fmt.Printf("property=%s harness=%s tag=%s\ninputs: %s\n", cf.Property, cf.Harness, cf.Tag, compactModel(cf.Model))
+	if cf.NoNative {
+		ok, msg := engineReplay(cf)
+		fmt.Println("engine-concrete replay:", msg)
+		if ok {
+			fmt.Println("REPRODUCED")
+			return 1
+		}
+		fmt.Println("NOT REPRODUCED")
+		return 0
+	}
+	rr := nativeReplay(cf)
+	fmt.Println(rr.output)
+	if rr.err != "" {
+		fmt.Println("replay error:", rr.err)
+		return 2
+	}
+	if rr.violated[cf.Tag] || (cf.Tag == "no-panic" && rr.panicked) {
+		fmt.Println("REPRODUCED")
+		return 1
+	}
+	fmt.Println("NOT REPRODUCED")
+	return 0
+}
+
+func cmdSelftest(args []string) int {
+	fmt.Println("selftest: solver round trip")
+	s := NewSolver("z3", 10000, 0)
+	defer s.Close()
+	x := mkVar("x", 8)
+	s.Push()
+	s.Assert(mkEq(mkBin(opAdd, x, mkBV(8, 1)), mkBV(8, 0)))
+	if s.Check() != resSat || s.Values([]*Term{x})[0] != 255 {
+		fmt.Println("selftest FAILED")
+		return 2
+	}
+	s.Pop()
+	fmt.Println("selftest ok")
+	return 0
+}
